@@ -18,6 +18,7 @@ package adam
 
 /* -------------------------------------------------------------------------- */
 
+import "github.com/pbenner/autodiff/verifhook"
 import   "fmt"
 import   "math"
 
@@ -60,6 +61,7 @@ func adam_dense_with_gradient(evalGradient DenseGradientF, x0 DenseFloat64Vector
     return x1, fmt.Errorf("invalid initial value: %v", x1)
   }
   for i_ := 0; i_ < maxIterations.Value; i_++ {
+    verifhook.Tick("adam.iter")
     // compute partial derivatives and update x
     if err := evalGradient(x2, gradient); err != nil {
       return x1, err
